@@ -121,6 +121,7 @@ class Policy:
         self.p_future = args.get('p_future', 0.7)
         self.first_start_line = args.get('first_start_line')
         self.p_unborn = args.get('p_unborn', 0.0)
+        self.cmds = args.get('cmds', ['next', 'next', 'step'])
         self.no_decoys = args.get('no_decoys', False)
         self.lock = threading.RLock()
         self.put = None
@@ -222,7 +223,9 @@ class Policy:
 
     def _put(self, t, p, text):
         self.log.append(['put', t, p, text])
-        self.put(t, p, text)
+        # In a real run a command crosses a process boundary (pickled): the child never receives the int OBJECTS of its
+        # own events back.  The in-process harness would hand them back; send equal but distinct objects instead.
+        self.put(int(str(t)), int(str(p)), str(text))
 
     def _answer(self, t):
         p, line_no, event = self.pending.pop(t)
@@ -236,7 +239,7 @@ class Policy:
         elif r < self.p_stmt + self.p_continue and not self.gate_lines:
             text = 'continue'
         else:
-            text = rng.choice(['next', 'next', 'step'])
+            text = rng.choice(self.cmds)
         resumes = not text.startswith('!')
         if not self.no_decoys:
             for _ in range(rng.randint(0, self.max_decoys)):
@@ -378,24 +381,61 @@ def gen_job(rng, tier_threads: int, plain: bool = False):
             'policy': {'kind': 'custom', 'module': 'harness.props.c07', 'func': 'make_policy', 'args': args}}
 
 
+def gen_long_job(rng, kind: str):
+    """Long runs: prompt numbers (kind 'prompts': > 300, interleaved across threads) or trace numbers
+    (kind 'traces': > 256 sequential threads) beyond CPython's shared small integers (-5..256) and beyond one byte."""
+    if kind == 'prompts':
+        nth = rng.randint(2, 3)
+        lines = ['import threading']
+        for i in range(nth):
+            lines += [f'def f{i}():', f'    for i in range({rng.randint(60, 80)}):', '        v = i']
+        lines += ['ths = [threading.Thread(target=f) for f in (' + ', '.join(f'f{i}' for i in range(nth)) + ',)]',
+                  'for t in ths: t.start()', f'for i in range({rng.randint(20, 40)}):', '    w = i', 'for t in ths: t.join()']
+        first_start = 3 * nth + 3
+    else:
+        lines = ['import threading', 'def f():', '    return 1', f'for i in range({rng.randint(258, 270)}):',
+                 '    t = threading.Thread(target=f)', '    t.start(); t.join()']
+        first_start = None
+    lines.append("print('@@', sorted(MARK), sorted(LOG))")
+    args = {'seed': rng.randrange(1 << 30), 'gate_lines': {}, 'first_start_line': first_start, 'p_unborn': 0.3,
+            'withhold': rng.choice([0.0, 0.3]), 'max_decoys': rng.choice([1, 2]), 'p_stmt': 0.03, 'p_continue': 0.0,
+            'future': False, 'no_decoys': False, 'cmds': ['next']}
+    return {'src': '\n'.join(lines) + '\n', 'form': 'str', 'trace_threads': True, 'trace_modules': False, 'timeout': 40, 'long': kind,
+            'policy': {'kind': 'custom', 'module': 'harness.props.c07', 'func': 'make_policy', 'args': args}}
+
+
 # ---------------------------------------------------------------- log -> model labels + observations
 
 def build_case(summary):
-    """Label sequence (eager relay / eager prompt loop) and the implementation's observations."""
+    """Label sequence (eager relay / eager prompt loop) and the implementation's observations.
+    The number of `Take` labels after an OpenPrompt is the length of the trace's backlog, obtained by
+    following the queues along the log (too few Takes would show up as a mismatch, too many are no-ops)."""
     labels = []          # tuples
     open_pos = []        # (prompt number, index in labels of its OpenPrompt)
     nsent_to = {}
     opens, execs = [], []
+    live, queue, cur = set(), {}, {}
+    exact = True         # False after an out-of-order OnStartPrompt: fall back to the upper bound
     for e in summary['log']:
         k = e[0]
         if k == 'start':
-            labels.append(('StartTrace', e[1]))
+            labels.append(('StartTrace', e[1])); live.add(e[1]); queue[e[1]] = []
         elif k == 'end':
-            labels.append(('EndTrace', e[1]))
+            labels.append(('EndTrace', e[1])); live.discard(e[1]); queue.pop(e[1], None)
         elif k == 'open':
             t, p = e[1], e[2]
-            new = [('OpenPrompt', t)] + [('Take', t)] * nsent_to.get(t, 0)
             later = [(q, i) for (q, i) in open_pos if q > p]
+            if later:
+                exact = False
+            ntake = nsent_to.get(t, 0)
+            if exact:
+                ntake, cur[t] = 1, p
+                q_ = queue.get(t, [])
+                while q_ and cur.get(t) is not None:
+                    ntake += 1
+                    if q_.pop(0) == p:
+                        cur[t] = None
+            new = [('OpenPrompt', t)] + [('Take', t)] * ntake
             if later:
                 at = min(i for _, i in later)
                 labels[at:at] = new
@@ -409,6 +449,10 @@ def build_case(summary):
             t, p, text = e[1], e[2], e[3]
             labels += [('Send', t, p, text_id(text)), ('Relay',), ('Take', t)]
             nsent_to[t] = nsent_to.get(t, 0) + 1
+            if t in live:
+                queue[t].append(p)
+                if cur.get(t) is not None and queue[t].pop(0) == cur[t]:
+                    cur[t] = None
         elif k == 'close':
             execs.append((e[1], e[2], text_id(e[3])))
     opens.sort(key=lambda tp: tp[1])
@@ -454,7 +498,16 @@ def oracle(job, res):
     decoys = {int(k): v for k, v in summ.get('decoys', {}).items()}
     decoy_text = {f'!MARK.append({k})': v for k, v in decoys.items()}
     if res.get('timeout') or res.get('error'):
-        bad.append(('run-stuck', f'the run did not complete: {str(res.get("error"))[:200]}'))
+        evs = res.get('events', [])
+        op = {e['prompt_no']: e['trace_no'] for e in evs if e['type'] == 'OnStartPrompt'}
+        for e in evs:
+            if e['type'] == 'OnEndPrompt':
+                op.pop(e['prompt_no'], None)
+        ans = [c for c in res.get('sent', []) if c[1] in op and c[0] == op[c[1]]]
+        bad.append(('run-stuck', f'the run did not complete: {str(res.get("error"))[:200]}; prompts left open (prompt: trace) {op}; '
+                    f'commands sent with exactly these numbers: {ans[:6]}'))
+        if not summ:
+            return bad          # the responder's record (which command was the genuine one) is lost with the worker
     opened, closed = {}, {}
     log_before_print, seen_print = [], False
     for ev in res.get('events', []):
@@ -518,7 +571,16 @@ def _run(ctx, jobs) -> Corr:
     t0 = time.time()
     # VERIF_REPO: run against a scratch copy of the repository (mutation self-tests only)
     alt = os.environ.get('VERIF_REPO')
-    results = child.run_jobs(jobs, extra_env={'PYTHONPATH': f'{alt}:{C.VERIF}'} if alt else None)
+    env = {'PYTHONPATH': f'{alt}:{C.VERIF}'} if alt else None
+    for i, j in enumerate(jobs):
+        j['id'] = i
+    # long runs each in a worker of their own, in parallel with the chunks of short ones
+    from concurrent.futures import ThreadPoolExecutor
+    with ThreadPoolExecutor(2) as ex:
+        fl = ex.submit(child.run_jobs, [j for j in jobs if j.get('long')], 8, 1, env)
+        fs = ex.submit(child.run_jobs, [j for j in jobs if not j.get('long')], 12, 20, env)
+        by_id = {r.get('id'): r for r in fl.result() + fs.result()}
+    results = [by_id.get(j['id'], {'id': j['id'], 'error': 'missing', 'events': [], 'sent': []}) for j in jobs]
     ctx.log(f'{len(jobs)} real runs in {time.time() - t0:.1f}s')
     cases, kept = [], []
     hist_kinds: dict[str, int] = {}
@@ -575,6 +637,9 @@ def _run(ctx, jobs) -> Corr:
         corr.samples.append({'src': job['src'], 'log': summ['log'][:40], 'discards': summ['discards'][:20]})
     corr.extra['decoy_kinds'] = hist_kinds
     corr.extra['streams_with_concurrent_open_prompts'] = n_conc
+    corr.extra['max_prompt_no'] = max([o['opens'][-1][1] for _, o in cases if o['opens']] or [0])
+    corr.extra['max_trace_no'] = max([t for _, o in cases for t, _ in o['opens']] or [0])
+    corr.extra['long_runs'] = [{'kind': j['long'], 'prompts': len(r.get('events') and [e for e in r['events'] if e['type'] == 'OnStartPrompt'] or []), 'wall': r.get('wall')} for j, r in zip(jobs, results) if j.get('long')]
     corr.extra['commands_sent'] = sum(len(r.get('sent', [])) for r in results)
     corr.extra['discard_warnings'] = sum(len(s['discards']) for _, _, s in kept)
     corr.extra['relay_keyerrors'] = sum(s['dropped'] for _, _, s in kept)
@@ -584,7 +649,10 @@ def _run(ctx, jobs) -> Corr:
 def correspond(ctx) -> Corr:
     rng = ctx.rng
     n, thr = (110, 3) if ctx.tier == 'quick' else (3000, 4)
-    jobs = load_corpus() + [gen_job(rng, thr, plain=(i % 10 == 9)) for i in range(n)]
+    nlong = (1, 1) if ctx.tier == 'quick' else (12, 4)
+    # the long runs first: they take the longest, start them first
+    jobs = [gen_long_job(rng, 'prompts') for _ in range(nlong[0])] + [gen_long_job(rng, 'traces') for _ in range(nlong[1])]
+    jobs += load_corpus() + [gen_job(rng, thr, plain=(i % 10 == 9)) for i in range(n)]
     return _run(ctx, jobs)
 
 
